@@ -103,6 +103,9 @@ func checkC06(tier string) int {
 			if c.H >= 4 && c.H%3 == 1 {
 				return gen.RecreateDeletedSub(c, c.W.Users[1%len(c.W.Users)], fmt.Sprint(hseed%1000))
 			}
+			if c.H >= 5 && c.H%6 == 2 {
+				return gen.FailingFeeConfigCreate(c, fmt.Sprint(hseed))
+			}
 			return nil
 		}
 		// byzantine proposer: everything generated goes into the block
